@@ -1,4 +1,52 @@
-(* placeholder *)
-From GR Require Import Base Resp.
-Theorem C11_placeholder : True. Proof. exact I. Qed.
-Print Assumptions C11_placeholder.
+(* C11 — a request is executed only if it was received completely.  Property theorems only. *)
+From Coq Require Import String.
+From GR Require Import Base Resp RespFacts Handler Exec Conn ConnFacts LoopFacts.
+
+Section C11.
+  Variable hstate : Type.
+  Variable handle : hstate -> Z -> hcall -> hstate * hresult.
+  Variable regexp_src : bytes -> bytes.
+  Variable fw_text : bytes -> args -> bytes.
+  Notation serve := (serve hstate handle regexp_src fw_text).
+  Notation trace := (trace hstate).
+
+  (* (1) prefix-freedom under the parser's end-of-stream leniency: a strict prefix of a client request (non-empty
+     array of non-null bulk strings) never parses to a value *)
+  Theorem C11_prefix_free : forall v p q,
+    is_request v = true -> size_ok v = true -> encode v = p ++ q -> q <> [] ->
+    fst (parse p) = (match p with [] => PEOS | _ => PErr end).
+  Proof. exact prefix_free_request. Qed.
+
+  (* (2) for every pipeline of client requests, every handler and EVERY byte offset k at which the stream ends:
+     with j the number of requests wholly inside the first k bytes, the whole trace of the connection — handler
+     calls with their arguments, replies, spans, deregistration and close — equals the trace of the stream that
+     ends exactly after request j.  So nothing is invoked with arguments fabricated from the partial frame, and
+     each complete request is executed and answered exactly as if the cut had not happened. *)
+  Theorem C11_cut_anywhere : forall ss hs reqs k,
+    forallb is_request reqs = true -> forallb size_ok reqs = true -> (k <= length (flat_map encode reqs))%nat ->
+    exists j, (j <= length reqs)%nat /\
+      (length (flat_map encode (firstn j reqs)) <= k)%nat /\
+      ((j < length reqs)%nat -> (k < length (flat_map encode (firstn (S j) reqs)))%nat) /\
+      trace (serve ss hs None (firstn k (flat_map encode reqs))) = trace (serve ss hs None (flat_map encode (firstn j reqs))).
+  Proof. exact (cut_trace hstate handle regexp_src fw_text). Qed.
+
+  (* (3) the connection is then released: the trace ends with deregistration and close (C19 states this for every input) *)
+  Theorem C11_released : forall ss hs input,
+    exists mid, trace (serve ss hs None input) = EvRegister :: mid ++ [EvDeregister; EvClose] /\ existsb is_conn_ev mid = false.
+  Proof.
+    intros ss hs input. destruct (serve_released hstate handle regexp_src fw_text ss hs None input) as [(_ & H)|(A & _)]; [exact H|discriminate].
+  Qed.
+End C11.
+Print Assumptions C11_prefix_free.
+Print Assumptions C11_cut_anywhere.
+Print Assumptions C11_released.
+
+(* non-vacuity: RPUSH l a b ; LPOP l 5 cut two bytes before the end: only RPUSH reaches the handler *)
+Example C11_ex :
+  let h := fun (s : unit) (_ : Z) (_ : hcall) => (s, hr_ok ok_msg) in
+  let q n := RArr (map (fun s => RBulk (Some s)) n) in
+  let reqs := [q [B"RPUSH"; B"l"; B"a"; B"b"]; q [B"LPOP"; B"l"; B"5"]] in
+  let bytes := flat_map encode reqs in
+  let r := Conn.serve unit h (fun p => p) (fun _ _ => B"ERR") {| ss_config := []; ss_auths := []; ss_app := [] |} tt None (firstn (length bytes - 2) bytes) in
+  map (fun e => match e with EvCall _ _ c _ => hcall_name c | _ => [] end) (ev_calls (Conn.trace unit r)) = [B"RPush"] /\ fst r = EndProtoErr.
+Proof. vm_compute. auto. Qed.
